@@ -198,8 +198,7 @@ int large_bunch::num()
 	int cnt = 1;
 	if (ExtDataBitsLen > 0)
 	{
-		auto bytes_len = (int)bits2bytes(ExtDataBitsLen);
-		cnt = bytes_len / MAX_SINGLE_BUNCH_SIZE_BYTES + 1;
+		cnt = ExtDataBitsLen / MAX_PARTIAL_BUNCH_SIZE_BITS + 1;
 	}
 	return cnt;
 }
